@@ -192,3 +192,7 @@ func vFileWrites(id int) int {
 	}
 	return n
 }
+
+// vMonitorWrites: the write-set monitor is an engine facility; natively the
+// harness's own snapshot comparison of the inputs is what is observable.
+func vMonitorWrites(on bool) {}
